@@ -107,8 +107,8 @@ pub open spec fn carrier_sense_spec(d: u8) -> CarrierSense { if d == 0 { Carrier
 pub open spec fn assigned_spec_bbm(d: u8) -> AssignedMode { if d == 0 { AssignedMode::Autonomous } else { AssignedMode::Assigned } }
 ''')
     fc.insert_after('parse_base', 'let (data, fid) = take_bits(6u8)(data)?;', '\n        proof { at_unfold(data); }')
-    fc.contract('parse', within='impl CarrierSense', requires=['val <= 1'], ensures=['r == carrier_sense_spec(val)'])
-    fc.contract('parse', within='impl AssignedMode', requires=['val <= 1'], ensures=['r == assigned_spec_bbm(val)'])
+    fc.contract('parse', within='impl CarrierSense', requires=['val <= 1'], ensures=['r == carrier_sense_spec(val)'], tags=['C12'])
+    fc.contract('parse', within='impl AssignedMode', requires=['val <= 1'], ensures=['r == assigned_spec_bbm(val)'], tags=['C12'])
 
 
 T17 = HDR + [
@@ -134,11 +134,11 @@ pub open spec fn dcd_post(data: (&[u8], usize), r: nom::IResult<(&[u8], usize), 
 }
 '''
     std_message(fc, 't17', 'DgnssBroadcastBinaryMessage', T17, {'C14': ['r is Ok <==> n >= 120']}, signed=(18, 17), more_spec=more)
-    fc.contract('parse', within='impl DifferentialCorrectionData', requires=['cur_ok(data)'], ensures=['dcd_post(data, r)'])
+    fc.contract('parse', within='impl DifferentialCorrectionData', requires=['cur_ok(data)'], ensures=['dcd_post(data, r)'], tags=['C15', 'C04'])
     fc.insert_after('parse', 'let (data, health) = take_bits(3u8)(data)?;', '\n        proof { at_unfold(data); }', within='impl DifferentialCorrectionData')
-    fc.contract('parse_longitude_min_10', ensures=['lon10_rel(data, r)'])
+    fc.contract('parse_longitude_min_10', ensures=['lon10_rel(data, r)'], tags=['C10', 'C11'])
     fc.body_prefix('parse_longitude_min_10', F32)
-    fc.contract('parse_latitude_min_10', ensures=['lat10_rel(data, r)'])
+    fc.contract('parse_latitude_min_10', ensures=['lat10_rel(data, r)'], tags=['C10', 'C11'])
     fc.body_prefix('parse_latitude_min_10', F32)
 
 
@@ -167,7 +167,7 @@ pub open spec fn %(p)s_C14(o: Seq<u8>, r: core::result::Result<%(s)s, ()>) -> bo
 def apply_ack(fc, struct, prefix):
     fc.add_prologue(MSG_PROLOGUE)
     fc.add_epilogue(ack_spec(struct, prefix))
-    fc.contract('parse', within='impl Acknowledgement', requires=['cur_ok(data)'], ensures=['ack_post(data, r)'])
+    fc.contract('parse', within='impl Acknowledgement', requires=['cur_ok(data)'], ensures=['ack_post(data, r)'], tags=['C04', 'C14'])
     inner = ['%s_C04(data.0@, strip(r))' % prefix, '%s_C14(data.0@, strip(r))' % prefix]
     fc.contract('parse_base', requires=['small(data@.len() as int)'], ensures=['%s_C04(data@, strip(r))' % prefix, '%s_C14(data@, strip(r))' % prefix])
     fc.replace_in('parse_base', BITS_HEAD_A, bits_closure_head(struct, inner, True))
@@ -203,7 +203,7 @@ pub open spec fn t20_C14(o: Seq<u8>, r: core::result::Result<DataLinkManagementM
     &&& (r is Ok ==> r->Ok_0.reservations@.len() == k)
 }
 ''')
-    fc.contract('parse', within='impl SlotReservation', requires=['cur_ok(data)'], ensures=['slot_post(data, r)'])
+    fc.contract('parse', within='impl SlotReservation', requires=['cur_ok(data)'], ensures=['slot_post(data, r)'], tags=['C04', 'C14'])
     inner = ['t20_C04(data.0@, strip(r))', 't20_C14(data.0@, strip(r))']
     fc.contract('parse_base', requires=['small(data@.len() as int)'], ensures=['t20_C04(data@, strip(r))', 't20_C14(data@, strip(r))'])
     fc.replace_in('parse_base', BITS_HEAD_A, bits_closure_head('DataLinkManagementMessage', inner, True))
@@ -234,8 +234,8 @@ T9_EXTRA = {'C14': ['fld(o, 0, 6) == 9 ==> (r is Ok <==> n >= 168)'],
 
 def apply_sar(fc):
     std_message(fc, 't9', 'SARPositionReport', T9, T9_EXTRA)
-    fc.contract('parse_altitude', ensures=['r == opt_ne_u16(data as int, 4095)'])
-    fc.contract('parse_speed_over_ground_sar', ensures=['sog_sar_rel(data, r)'])
+    fc.contract('parse_altitude', ensures=['r == opt_ne_u16(data as int, 4095)'], tags=['C11'])
+    fc.contract('parse_speed_over_ground_sar', ensures=['sog_sar_rel(data, r)'], tags=['C10', 'C11'])
 
 
 # ---------------------------------------------------------------------------------------------- 10
@@ -299,7 +299,7 @@ def apply_class_b(fc):
 /// class B unit flag: 0 = SOTDMA unit, 1 = carrier-sense unit
 pub open spec fn cs_unit_spec(d: u8) -> CarrierSense { if d == 0 { CarrierSense::Sotdma } else { CarrierSense::CarrierSense } }
 ''')
-    fc.contract('parse', within='impl CarrierSense', requires=['val <= 1'], ensures=['r == cs_unit_spec(val)'])
+    fc.contract('parse', within='impl CarrierSense', requires=['val <= 1'], ensures=['r == cs_unit_spec(val)'], tags=['C12'])
 
 
 # ---------------------------------------------------------------------------------------------- 19
@@ -357,7 +357,8 @@ pub open spec fn navaid_spec(d: u8) -> Option<NavaidType> {
 pub proof fn navaid_injective(a: u8, b: u8) requires navaid_spec(a) == navaid_spec(b), navaid_spec(a) is Some ensures a == b {}
 '''
     std_message(fc, 't21', 'AidToNavigationReport', T21, {'C14': ['r is Ok <==> n >= 272']}, fn='parse_message', more_spec=more)
-    fc.contract('parse', within='impl NavaidType', ensures=['r == navaid_spec(data)'])
+    fc.contract('parse', within='impl NavaidType', ensures=['r == navaid_spec(data)'], tags=['C12'])
+    fc.lemma('navaid_injective', ['C12'])
 
 
 # ---------------------------------------------------------------------------------------------- 24
@@ -397,7 +398,7 @@ pub open spec fn t24_C14(o: Seq<u8>, r: core::result::Result<StaticDataReport, (
 '''
     fc.add_prologue(MSG_PROLOGUE)
     fc.add_epilogue(more)
-    fc.contract('parse_message_part', requires=['cur_ok(data)'], ensures=['part_post(data, r)'])
+    fc.contract('parse_message_part', requires=['cur_ok(data)'], ensures=['part_post(data, r)'], tags=['C04', 'C12', 'C13', 'C14'])
     inner = ['t24_C04(data.0@, strip(r))', 't24_C14(data.0@, strip(r))']
     fc.contract('parse_message', requires=['small(data@.len() as int)'], ensures=['t24_C04(data@, strip(r))', 't24_C14(data@, strip(r))'])
     fc.replace_in('parse_message', BITS_HEAD, bits_closure_head('StaticDataReport', inner))
@@ -438,8 +439,8 @@ pub open spec fn coord27_post(t: u8, sentinel: i32, x: i32, o: Option<f32>) -> b
     fc.replace_in('parse_base', '|lon| {', '|lon: i32| -> (o: Option<f32>) ensures coord27_post(message_type, 108_600_000, lon, o), { ' + F32)
     fc.replace_in('parse_base', '|lat| {', '|lat: i32| -> (o: Option<f32>) ensures coord27_post(message_type, 54_600_000, lat, o), { ' + F32)
     fc.replace_in('parse_base', '.map(|val| {', '.map(|val: f32| -> (w: f32) ensures w == (if message_type == 27 { val.mul_spec(1000.0f32) } else { val }), {', occ='all')
-    fc.contract('parse_speed_over_ground_62', ensures=['sog27_rel(data, r)'])
-    fc.contract('parse_cog_511', ensures=['cog27_rel(data, r)'])
+    fc.contract('parse_speed_over_ground_62', ensures=['sog27_rel(data, r)'], tags=['C10', 'C11'])
+    fc.contract('parse_cog_511', ensures=['cog27_rel(data, r)'], tags=['C10', 'C11'])
 
 
 # ---------------------------------------------------------------------------------------------- 15
@@ -502,8 +503,8 @@ pub open spec fn t15_C14(o: Seq<u8>, r: core::result::Result<Interrogation, ()>)
 '''
     fc.add_prologue(MSG_PROLOGUE)
     fc.add_epilogue(more)
-    fc.contract('parse', within='impl Message', requires=['cur_ok(data)'], ensures=['imsg_post(data, r)'])
-    fc.contract('parse', within='impl Station', requires=['cur_ok(data)'], ensures=['station_post(data, r)'])
+    fc.contract('parse', within='impl Message', requires=['cur_ok(data)'], ensures=['imsg_post(data, r)'], tags=['C04', 'C11', 'C14'])
+    fc.contract('parse', within='impl Station', requires=['cur_ok(data)'], ensures=['station_post(data, r)'], tags=['C04', 'C11', 'C14'])
     inner = ['t15_C04(data.0@, strip(r))', 't15_C14(data.0@, strip(r))']
     fc.contract('parse_message', requires=['small(data@.len() as int)'], ensures=['t15_C04(data@, strip(r))', 't15_C14(data@, strip(r))'])
     fc.replace_in('parse_message', BITS_HEAD, bits_closure_head('Interrogation', inner))
